@@ -5,8 +5,11 @@
    within its parent's and a node starts after its previous sibling ends.  Shape clauses, from the lexer
    post-conditions: the range of a comment token is exactly '<!--' text '-->', of a PI token '<?' target ...
    '?>', a start tag runs from '<' to its '>' and the name follows the '<', an end tag from '</' to '>';
-   text / CDATA ranges are the token's source.  (The builder stores these token ranges; validity, nesting
-   and the shift relation are checked by the range oracle, not proved.)
+   text / CDATA ranges are the token's source.  Attribute sub-ranges (below the documented saturation limits):
+   the qname sub-range ends where the local name ends, the value sub-range is delimited by the same quote on
+   both sides, ends one byte before the attribute's end, equals a borrowed value's slice, and only whitespace and
+   one '=' separate it from the qname.  Shift: prepending whitespace to an input that starts with neither a BOM nor
+   an XML declaration yields the same document with every non-root range moved by exactly that length.
    Statements are pinned here (copied verbatim from the proof files by tools/pin_props.py);
    each is re-proved by `exact` and followed by Print Assumptions. *)
 From Coq Require Import Ascii String.
@@ -14,7 +17,7 @@ From Coq Require Import List NArith Bool PeanoNat Sorted.
 Import ListNotations.
 From RX Require Import Generated.
 From RX.Model Require Import Base CharClass Stream Tokenizer Doc Builder Parse Api.
-From RX.Proofs Require Import LexerProofs NoPanicTokenizer RangeTokenizer RangeArena RangeInv RangeBuilder RangeParse.
+From RX.Proofs Require Import LexerProofs NoPanicTokenizer RangeTokenizer RangeArena RangeInv RangeBuilder RangeParse RangeAttrLocal RangeAttrTok RangeAttrParse RangeShiftBase RangeShiftStream RangeShiftTokenizer RangeShiftBuilder RangeShiftParse RangeShiftFinal.
 Open Scope N_scope.
 
 (* ---- Proofs/RangeParse.v ---- *)
@@ -49,8 +52,37 @@ Theorem C13_parse_ranges_siblings :
 Proof. exact parse_ranges_siblings. Qed.
 Print Assumptions C13_parse_ranges_siblings.
 
+(* ---- Proofs/RangeAttrParse.v ---- *)
+Theorem C13_parse_attr_subranges :
+  forall text opt d a, valid_utf8_b text = true -> parse text opt = Ok d -> In a (d_attrs d) ->
+  ad_qname_len a < qname_len_sat -> ad_eq_len a < eq_len_sat ->
+  (* the qname sub-range ends where the local name ends, and starts with the (possibly empty) prefix *)
+  snd (attr_range_qname a) = sl_end (ad_local a) /\ fst (ad_range a) <= sl_start (ad_local a) /\
+  (* the value sub-range is delimited by the same quote character on both sides *)
+  exists vr q, attr_range_value a = Ok vr /\ (q = 39 \/ q = 34) /\
+    nth_N text (fst vr - 1) = Some q /\ nth_N text (snd vr) = Some q /\ snd vr + 1 = snd (ad_range a) /\
+    fst vr <= snd vr /\
+    (* a borrowed value is exactly that sub-range *)
+    (forall v, ad_value a = Borrowed (SIn v) -> (sl_start v, sl_end v) = vr) /\
+    (* between the qname and the opening quote there is only whitespace and one '=' *)
+    (exists w1 w2, sub text (snd (attr_range_qname a)) (fst vr - 1) = w1 ++ [61] ++ w2 /\ forallb byte_is_space w1 = true /\ forallb byte_is_space w2 = true).
+Proof. exact parse_attr_subranges. Qed.
+Print Assumptions C13_parse_attr_subranges.
+
+(* ---- Proofs/RangeShiftFinal.v ---- *)
+Theorem C13_parse_shift_whitespace_partial :
+  forall ws text opt d, forallb byte_is_space ws = true -> valid_utf8_b text = true ->
+  (* text does not start with a BOM or an XML declaration: those are only recognised at offset 0 *)
+  starts_with (stream_new text) [239; 187; 191] = false -> starts_with_declaration (stream_new text) = false ->
+  parse text opt = Ok d ->
+  exists d', parse (ws ++ text) opt = Ok d' /\ len_N (d_nodes d') = len_N (d_nodes d) /\
+    forall id nd nd', 0 < id -> nth_N (d_nodes d) id = Some nd -> nth_N (d_nodes d') id = Some nd' ->
+      nd_range nd' = shift_range (blen ws) (nd_range nd).
+Proof. exact parse_shift_whitespace_partial. Qed.
+Print Assumptions C13_parse_shift_whitespace_partial.
+
 (* ---- Proofs/RangeTokenizer.v ---- *)
-Module G1.
+Module G3.
 Local Notation token := Tokenizer.token.
 Theorem C13_tokenizer_token_ranges :
   forall text (C : Type) (ev : token -> C -> res C)
@@ -62,10 +94,10 @@ Theorem C13_tokenizer_token_ranges :
 Proof. exact tokenizer_token_ranges. Qed.
 Print Assumptions C13_tokenizer_token_ranges.
 
-End G1.
+End G3.
 
 (* ---- Proofs/LexerProofs.v ---- *)
-Module G2.
+Module G4.
 Local Notation token := Tokenizer.token.
 Theorem C13_parse_comment_post :
   forall (text : bytes), forall s acc s' acc', SInv text s ->
@@ -136,4 +168,4 @@ Theorem C13_parse_close_element_post :
 Proof. exact parse_close_element_post. Qed.
 Print Assumptions C13_parse_close_element_post.
 
-End G2.
+End G4.
